@@ -10,8 +10,9 @@ OUT_DIR = os.path.join(ROOT, 'out')
 FINDINGS_FILE = os.path.join(ROOT, 'known_findings.json')
 
 sys.dont_write_bytecode = True
-if '/repo' not in sys.path:
-    sys.path.insert(0, '/repo')
+REPO = os.environ.get('VERIF_REPO') or '/repo'    # VERIF_REPO: a scratch worktree when testing seeded changes
+if REPO not in sys.path:
+    sys.path.insert(0, REPO)
 
 from .tlc import Scratch, MachineryError  # noqa: E402
 
